@@ -273,7 +273,11 @@ class Tagger:
             return
         s = norm(test)
         self._scan_zero_tests(st, test)
-        if s in (f"self._units == {self.other}._units", f"{self.other}._units == self._units") and val:
+        same_units = s in (f"self._units == {self.other}._units", f"{self.other}._units == self._units")
+        if not same_units and isinstance(test, ast.Compare) and len(test.ops) == 1 and isinstance(test.ops[0], ast.Eq):
+            lt, rt = self.units_tag(st, test.left), self.units_tag(st, test.comparators[0])    # local aliases of the two unit containers
+            same_units = lt is not None and rt is not None and {lt, rt} == {st.units, st.other_units} and all(isinstance(x, ast.Name) for x in (test.left, test.comparators[0]))
+        if same_units and val:
             st.alias[st.other_units] = st.units
         if s in (f"self._check({self.other})", f"isinstance({self.other}, PlainQuantity)", f"isinstance({self.other}, self.__class__)", f"_is_quantity({self.other})"):
             st.other_is_qty = val
@@ -320,6 +324,9 @@ class Tagger:
                             st.other_units, st.other_is_qty = q[1], True
                         elif isinstance(v, ast.Attribute) and v.attr in ("_magnitude", "magnitude"):
                             st.vars[t.id] = ("mag", self.mag_tag(st, v))
+                        continue
+                    if isinstance(v, ast.Name) and v.id in st.vars:
+                        st.vars[t.id] = st.vars[v.id]          # a plain copy of a tracked local keeps its kind and tag
                         continue
                     q = self.qty_tag(st, v)
                     if q is not None:
